@@ -35,9 +35,11 @@ META = {
                    "is_density is explored: a normal return implies both inputs are density operators within a stated window, an "
                    "exception is a ValueError and implies that an input is not exactly a density operator (same eigenvalue kernel).",
     "bounds": {
-        "quick": "d=2 (real and complex A, ranks (d,d), (1,d), (1,1)), d=3 real for kernel-argument obligations; rejection paths d=2 "
-                 "Hermitian and general complex, d=3 Hermitian; inner product shapes up to 3x3",
-        "thorough": "d=2,3 real and complex, all rank pairs; d=4 real for kernel-argument obligations; rejection paths d<=4",
+        "quick": "density pairs: d=2 real and complex A with ranks (2,2), (1,2), (2,1), (1,1), d=3 real full rank (sub-fidelity complex "
+                 "only d=2); Matsumoto d=2; rejection paths d=2 Hermitian and general complex (entries bounded by 10), d=3 Hermitian; "
+                 "inner product shapes up to 3x3",
+        "thorough": "adds d=3 complex (ranks (3,3), (1,3), (2,1)), d=3 real (2,3), d=4 real and complex for the kernel-argument "
+                    "obligations, Matsumoto d=3 real, rejection paths d=4, inner product 4x4",
     },
     "trusted_base": ["numpy object-array semantics = numeric semantics (translator validation per obligation)",
                      "congruence of kernels: the same LAPACK/scipy routine on entry-wise equal arguments returns equal values",
@@ -287,7 +289,8 @@ def ob_formula(fname, d, field, r1, r2):
     def oracle(i):
         return F(i["rho"], i["sigma"])
     return Obligation(f"{fname}.equals_documented_formula", cfg, build, call, oracle, assume=psd_kernel_assume,
-                      valid=valid_density_pair, weight=d * d * (3 if field == "complex" else 1))
+                      valid=valid_density_pair,
+                      weight=d * d * (3 if field == "complex" else 1) * (20 if fname == "sub_fidelity" else 1))
 
 
 def ob_matsumoto(d, field):
@@ -489,7 +492,7 @@ def obligations(tier):
     # (d, field, ranks)
     fam = [(2, "real", 2, 2), (2, "complex", 2, 2), (2, "complex", 1, 2), (2, "complex", 2, 1), (2, "complex", 1, 1), (3, "real", 3, 3)]
     if T:
-        fam += [(3, "complex", 3, 3), (3, "complex", 1, 3), (3, "complex", 2, 1), (3, "real", 2, 3), (4, "real", 4, 4), (4, "real", 1, 2)]
+        fam += [(3, "complex", 3, 3), (3, "complex", 1, 3), (3, "complex", 2, 1), (3, "real", 2, 3), (4, "real", 4, 4), (4, "real", 1, 2), (4, "complex", 4, 4)]
     for fn in kernel_fns:
         for (d, fld, r1, r2) in fam:
             obs.append(ob_formula(fn, d, fld, r1, r2))
